@@ -524,6 +524,7 @@ type Contract struct {
 	Lemmas      []string // lemma instantiations "use" at entry
 	Reveal      []string // opaque pure functions whose definitions are revealed
 	Logs        []*Clause // call bookkeeping (see "logs")
+	BitVector   bool      // verified in bit-vector mode (bvmode.go)
 }
 
 type PureFunc struct {
@@ -836,6 +837,11 @@ func (db *SpecDB) loadSpecFile(path, pkgRel string) error {
 			cur.TrustNote = rest
 		case "pure_fn":
 			cur.Pure = true
+		case "bitvector":
+			if cur == nil {
+				return fail(i, fmt.Errorf("bitvector outside func"))
+			}
+			cur.BitVector = true
 		case "noinline":
 			cur.NoInline = true
 		case "params":
